@@ -1,4 +1,4 @@
-(* C13 driver: one case per line:  <tbb|omp|internal|debug> <hw> n1 n2 ...
+(* C13 driver: one case per line:  <tbb|omp|internal|debug> <hw> n1 n2 ...   (a token u / s is a USE of the tasking system: parallel_for / schedule)
    prints numTaskingThreads() before any init and after each init, then (internal) workers / peak *)
 let rec pos_of_int i = if i = 1 then XH else if i land 1 = 1 then XI (pos_of_int (i lsr 1)) else XO (pos_of_int (i lsr 1))
 let z_of_int i = if i = 0 then Z0 else if i > 0 then Zpos (pos_of_int i) else Zneg (pos_of_int (- i))
@@ -11,9 +11,9 @@ let () =
     | b :: hw :: ns ->
       let b = (match b with "tbb" -> TBB | "omp" -> OMP | "internal" -> Internal | _ -> Debug) in
       let hw = z_of_int (int_of_string hw) in
-      let ns = List.map (fun s -> z_of_int (int_of_string s)) ns in
-      let rs = reports b hw ns in
-      let w = run b hw ns in
+      let ops = List.map (fun s -> if s = "u" || s = "s" then OUse else OInit (z_of_int (int_of_string s))) ns in
+      let rs = reports_ops b hw ops in
+      let w = run_ops b hw ops in
       Printf.printf "%s workers=%d peak=%d\n" (String.concat " " (List.map (fun z -> string_of_int (int_of_z z)) rs))
         (int_of_z w.w_workers) (int_of_z w.w_peak)
     | _ -> print_endline "?"
